@@ -85,7 +85,7 @@ def check(spec, tier, seed, replay=None):
 
     # 1. proof status
     C.log("[%s] proof status" % pid)
-    ps = C.proof_status(pid)
+    ps = C.proof_status(pid, coqchk=(tier == "thorough"))
     for p in ps["problems"]:
         broken.append("proof: " + p)
     ok, out = C.build_coq()
@@ -161,6 +161,7 @@ def check(spec, tier, seed, replay=None):
             "obligations": ps["obligations"], "discharged": ps["discharged"],
             "checker_cmd": "cd /verif/coq && make Props/%s.vo && coqc -Q . RV Props/%s.v  (Print Assumptions under every theorem; forbidden-vernacular scan)" % (pid, pid),
             "theorems": [{"name": n, "assumptions": a} for n, a in ps["theorems"]],
+            "coqchk_context_summary": ps.get("coqchk", "not run in this tier (thorough tier runs coqchk -o on the Props module)"),
             "trusted_base": spec["trusted_base"],
             "evaluations": evals, "distinct_nontrivial": distinct,
             "rule": spec["rule"],
